@@ -6,5 +6,8 @@
 #include <stddef.h>
 void *ep_alloc(size_t n);
 void ep_free(void *p);
-extern long long ep_live, ep_errors;
+/* FLATCC_CALLOC / FLATCC_FREE (the refmap's tables): live calloc blocks and bytes */
+void *ep_calloc(size_t nm, size_t n);
+void ep_gfree(void *p);
+extern long long ep_live, ep_errors, ep_clive, ep_cbytes;
 #endif
